@@ -126,62 +126,14 @@ theorem count_refOcc (m : KmerMap) (x j : Nat) (refs : List Bytes) : ∀ (i : Na
 
 /-! ## the scan of `Query` -/
 
-theorem sortRank_perm (rank : Nat → Nat) (l : List Nat) : (sortRank rank l).Perm l := by
-  have ins : ∀ (x : Nat) (l : List Nat), (insRank rank x l).Perm (x :: l) := by
-    intro x l
-    induction l with
-    | nil => exact List.Perm.refl _
-    | cons y t ih =>
-      simp only [insRank]
-      split
-      · exact List.Perm.refl _
-      · exact ((List.Perm.cons y ih).trans (List.Perm.swap x y t))
-  induction l with
-  | nil => exact List.Perm.refl _
-  | cons a t ih =>
-    simp only [sortRank, List.foldr_cons]
-    exact (ins a _).trans (List.Perm.cons a ih)
+theorem sortRank_perm (rank : Nat → Nat) (l : List Nat) : (sortRank rank l).Perm l :=
+  List.mergeSort_perm l _
 
 theorem sortRank_sorted (rank : Nat → Nat) (l : List Nat) : (sortRank rank l).Pairwise (fun a b => rank a ≤ rank b) := by
-  have mem_ins : ∀ (x y : Nat) (l : List Nat), y ∈ insRank rank x l ↔ y = x ∨ y ∈ l := by
-    intro x y l
-    induction l with
-    | nil => simp [insRank]
-    | cons a t ih =>
-      simp only [insRank]
-      split
-      · simp
-      · simp only [List.mem_cons, ih]
-        constructor
-        · rintro (h | h | h) <;> simp [h]
-        · rintro (h | h | h) <;> simp [h]
-  have ins : ∀ (x : Nat) (l : List Nat), l.Pairwise (fun a b => rank a ≤ rank b) →
-      (insRank rank x l).Pairwise (fun a b => rank a ≤ rank b) := by
-    intro x l
-    induction l with
-    | nil => intro _; simp [insRank]
-    | cons y t ih =>
-      intro h
-      rw [List.pairwise_cons] at h
-      simp only [insRank]
-      split
-      · rename_i hxy
-        rw [List.pairwise_cons]
-        refine ⟨?_, List.pairwise_cons.mpr h⟩
-        intro b hb
-        rcases List.mem_cons.mp hb with rfl | hb
-        · exact hxy
-        · exact Nat.le_trans hxy (h.1 b hb)
-      · rename_i hxy
-        rw [List.pairwise_cons]
-        refine ⟨?_, ih h.2⟩
-        intro b hb
-        rcases (mem_ins x b t).1 hb with rfl | hb
-        · omega
-        · exact h.1 b hb
-  induction l with
-  | nil => simp [sortRank]
-  | cons a t ih => simp only [sortRank, List.foldr_cons]; exact ins a _ ih
+  have h := List.pairwise_mergeSort (le := fun a b => decide (rank a ≤ rank b))
+    (by intro a b c h1 h2; simp only [decide_eq_true_eq] at *; omega)
+    (by intro a b; simp only [Bool.or_eq_true, decide_eq_true_eq]; omega) l
+  exact h.imp (by intro a b hab; simpa using hab)
 
 /-- invariant of the scan: `R` is the part already read, most recent first -/
 def ScanInv (qid : Nat) (R : List Nat) (st : Scan) : Prop :=
